@@ -8,6 +8,8 @@
                                            apply the patch to /repo, run the checks, ALWAYS undo it
                                            (git -C /repo checkout -- .), restore the evidence files
   seeded.py detect-all [--tier quick]
+  seeded.py regress [ids] [--lanes 3] [--tier quick]   re-judge all seeded changes against the current monitors in
+                                           scratch lanes (no change to /repo); writes seeded/<id>/regress.json
 
 Nothing is ever committed to /repo; scratch worktrees are removed when done.
 """
@@ -126,6 +128,69 @@ def detect(sid, tier, props=None):
     return 0
 
 
+def regress(nlanes, tier, only=None):
+    """Re-judge every seeded change against the CURRENT monitors in scratch lanes (a scratch worktree of
+    /repo with the patch + a scratch copy of the harness, VERIF_ALT_ROOT): /repo is not touched, so this
+    can run next to other checks. Writes seeded/<id>/regress.json and prints one line per change."""
+    import threading
+    sys.path.insert(0, os.path.dirname(os.path.abspath(__file__)))
+    import mutants
+    ids = [s for s in sorted(os.listdir(SEEDED)) if os.path.exists(os.path.join(SEEDED, s, "meta.json"))]
+    if only:
+        ids = [i for i in ids if i in only]
+    it = iter(ids)
+    lock = threading.Lock()
+    workers = max(4, (os.cpu_count() or 8) // nlanes)
+    summary = {}
+
+    def lane_main(k):
+        lane = mutants.Lane(30 + k, workers)
+        lane.setup()
+        try:
+            while True:
+                with lock:
+                    sid = next(it, None)
+                if sid is None:
+                    break
+                meta = meta_of(sid)
+                mutants.sh(["git", "-C", lane.repo, "checkout", "--", "."])
+                rc, out = mutants.sh(["git", "-C", lane.repo, "apply", os.path.join(SEEDED, sid, "patch.diff")])
+                if rc != 0:
+                    res = dict(status="patch does not apply to the current tree", detail=out[-200:])
+                else:
+                    res = dict(status="missed", checks={})
+                    for p in meta.get("checks", [meta["property"]]):
+                        rc, out = mutants.sh([os.path.join(VERIF, "check"), p, "--tier", tier], cwd=VERIF, timeout=4 * 3600,
+                                             env=dict(VERIF_ALT_ROOT=lane.root, VERIF_WORKERS=str(workers)))
+                        sigs = []
+                        try:
+                            sigs = json.load(open(os.path.join(lane.root, "evidence", f"{p}.json")))["coverage"]["new_violation_signatures"][:6]
+                        except Exception:
+                            pass
+                        res["checks"][p] = dict(exit=rc, signatures=sigs)
+                        if rc == 1:
+                            res["status"] = "detected"
+                        elif rc != 0 and res["status"] == "missed":
+                            res["status"] = "inconclusive"
+                        shutil.rmtree(os.path.join(lane.root, "replays", p), ignore_errors=True)
+                res["tier"] = tier
+                json.dump(res, open(os.path.join(SEEDED, sid, "regress.json"), "w"), indent=1)
+                with lock:
+                    summary[sid] = res["status"]
+                    print(f"[regress] {sid} {meta['property']}: {res['status']}", flush=True)
+        finally:
+            lane.teardown()
+
+    ts = [threading.Thread(target=lane_main, args=(k,)) for k in range(nlanes)]
+    for t in ts:
+        t.start()
+    for t in ts:
+        t.join()
+    bad = {k: v for k, v in summary.items() if v != "detected"}
+    print(f"{len(summary) - len(bad)} of {len(summary)} detected; not detected: {bad}")
+    return 0
+
+
 def main():
     ap = argparse.ArgumentParser()
     ap.add_argument("cmd")
@@ -133,11 +198,14 @@ def main():
     ap.add_argument("--tier", default="quick")
     ap.add_argument("--props", default=None)
     ap.add_argument("--worktree", default=None)
+    ap.add_argument("--lanes", type=int, default=3)
     a = ap.parse_args()
     if a.cmd == "confirm":
         return confirm(a.sid, a.worktree)
     if a.cmd == "detect":
         return detect(a.sid, a.tier, a.props.split(",") if a.props else None)
+    if a.cmd == "regress":
+        return regress(a.lanes, a.tier, a.sid.split(",") if a.sid else None)
     if a.cmd == "detect-all":
         for sid in sorted(os.listdir(SEEDED)):
             if os.path.exists(os.path.join(SEEDED, sid, "meta.json")):
